@@ -4,6 +4,7 @@
 # For each seed: scratch worktree of /repo HEAD, apply patch.diff, run the property's quick check against
 # it (evidence/replay go to a scratch dir), expect exit 1.  Prints one line per seed; removes the worktree.
 cd "$(dirname "$0")/.."
+HERE=$PWD
 NAMES=${@:-$(ls seeded)}
 for N in $NAMES; do
   P=$(/venv/bin/python -c "import json,sys; print(json.load(open('seeded/$N/meta.json'))['property'])")
@@ -15,7 +16,13 @@ for N in $NAMES; do
   else
     S=$(date +%s)
     VERIF_OUT=/tmp/rs-out-$N VERIF_REPO_SRC=$WT/src ./check $P quick > /tmp/rs-$N.log 2>&1; C=$?
-    echo "$N ($P) check-exit=$C $(( $(date +%s) - S ))s $(grep -m1 'sig=' /tmp/rs-$N.log)"
+    NOTE=""
+    if [ $C = 0 ]; then
+      # quiet check: does the change still break the property on today's tree?  (its own demo decides)
+      ( cd /tmp && PYTHONPATH=$WT/src:$HERE/shims timeout 600 /venv/bin/python $HERE/seeded/$N/demo.py > /tmp/rs-$N.demo.log 2>&1 ); D=$?
+      if [ $D = 0 ]; then NOTE="NEUTRALISED (own demo exits 0 on HEAD+patch: a later fix made the change harmless)"; else NOTE="MISSED (own demo exits $D)"; fi
+    fi
+    echo "$N ($P) check-exit=$C $(( $(date +%s) - S ))s $(grep -m1 'sig=' /tmp/rs-$N.log) $NOTE"
   fi
   git -C /repo worktree remove --force $WT >/dev/null 2>&1
   rm -rf /tmp/rs-out-$N
